@@ -12,6 +12,45 @@ if ! cargo build --release --offline >build.log 2>&1; then
     tail -40 build.log
     exit 2
 fi
+if [ "$1" = "build" ] || [ "$1" = "C15" ] || [ "$1" = "replay" ]; then
+    # C15 also runs in a build with overflow checks and debug assertions on (library included)
+    if ! cargo build --profile checked --offline >build-checked.log 2>&1; then
+        echo "HARNESS-ERROR: build (profile checked) failed (see $(pwd)/build-checked.log)"
+        tail -40 build-checked.log
+        exit 2
+    fi
+fi
 [ "$1" = "build" ] && exit 0
-[ "$1" = "replay" ] || set -- check "$@"
-exec ./target/release/rmv "$@"
+if [ "$1" = "replay" ]; then
+    if grep -q '"property": *"C15"' "$2"; then
+        RMV_BUILD=checked ./target/checked/rmv "$@"; rc1=$?
+        ./target/release/rmv "$@"; rc2=$?
+        [ $rc1 -eq 1 ] || [ $rc2 -eq 1 ] && exit 1
+        [ $rc1 -ne 0 ] && exit $rc1
+        exit $rc2
+    fi
+    exec ./target/release/rmv "$@"
+fi
+if [ "$1" = "C15" ]; then
+    ./target/release/rmv check "$@"; rc1=$?
+    RMV_BUILD=checked RMV_EVIDENCE_SUFFIX=-checked ./target/checked/rmv check "$@"; rc2=$?
+    python3 - <<'PY'
+import json
+a=json.load(open('/verif/evidence/C15.json')); b=json.load(open('/verif/evidence/C15-checked.json'))
+ca, cb = a['coverage'], b['coverage']
+for p in cb.get('parts', []): p['part'] += ' [build: overflow checks + debug assertions on]'
+for p in ca.get('parts', []): p['part'] += ' [build: release]'
+ca['evaluations'] += cb['evaluations']; ca['distinct_nontrivial'] += cb['distinct_nontrivial']
+ca['parts'] = ca.get('parts', []) + cb.get('parts', [])
+ca['samples'] = ca.get('samples', []) + cb.get('samples', [])[:2]
+ca['rule'] += ' || every part ran twice: release build and a build with overflow-checks=on, debug-assertions=on (counts are the sums)'
+a['violations'] = a.get('violations', 0) + b.get('violations', 0)
+a['wall_s'] += b['wall_s']
+json.dump(a, open('/verif/evidence/C15.json', 'w'), indent=1)
+PY
+    rm -f /verif/evidence/C15-checked.json
+    [ $rc1 -eq 1 ] || [ $rc2 -eq 1 ] && exit 1
+    [ $rc1 -ne 0 ] && exit $rc1
+    exit $rc2
+fi
+exec ./target/release/rmv check "$@"
